@@ -844,8 +844,11 @@ static void wlBarrierDeep() {
       cts.wait();
       all("wait");
     } else if (endMode == 1) {
-      for (int k = 0; k < 100000 && !cts.tryWait(1); ++k)
-        sim_work(1);
+      // (no iteration bound: a queued task may legitimately have to wait for a worker's sleep backstop - that is
+      // C07's business - and a bounded loop that gives up would blame the barrier for it; a tryWait that never
+      // reports completion is caught by the hang detector)
+      while (!cts.tryWait(1))
+        sim_sleep_ns(20000);
       all("tryWait");
     }
   }
